@@ -235,7 +235,11 @@ pub fn profile_for(prop: &str, thorough: bool) -> Profile {
             p.max_size = (0, 3);
         }
         "C09" => {
-            p.w_take = 6;
+            p.max_size = (1, 5);
+            p.fault_pct = 15;
+            p.w_get = 14;
+            p.w_return = 14;
+            p.w_take = 5;
             p.w_retain = 6;
             p.w_resize = 2;
             p.w_close = 1;
